@@ -718,3 +718,34 @@ Proof.
   rewrite (ws_insert_bytes U HU xb ws bb W N Hbb NP pre t post H1 Hpost Hend Hne Hsafe), H1.
   rewrite !map_app. cbn [map]. now rewrite map_kind_shift.
 Qed.
+
+(* ---------------------------------------------------------------- the delimiter hypothesis as a boolean check *)
+Definition ends_with (S X : list Z) : bool :=
+  (length S <=? length X) && list_zeqb S (skipn (length X - length S) X).
+
+(* no non-empty proper prefix of "@[ or "^^type: is a suffix of X *)
+Definition partial_marker_free (X : list Z) : bool :=
+  forallb (fun pat => forallb (fun i => negb (ends_with (firstn i pat) X)) (seq 1 (length pat - 1)))
+          [zs s_anchor; zs s_literalType].
+
+Lemma list_zeqb_refl' : forall a, list_zeqb a a = true.
+Proof. induction a as [|x a IH]; cbn; [reflexivity|]. now rewrite Z.eqb_refl, IH. Qed.
+
+Lemma ends_with_app P S : ends_with S (P ++ S) = true.
+Proof.
+  unfold ends_with. rewrite app_length. destruct (Nat.leb_spec (length S) (length P + length S)); [|lia]. cbn [andb].
+  replace (length P + length S - length S) with (length P) by lia. rewrite skipn_app_exact. apply list_zeqb_refl'.
+Qed.
+
+Lemma pmf_sound X : partial_marker_free X = true -> no_partial_marker X.
+Proof.
+  intros H pat Hp P S pat' E Hne Ep. destruct pat' as [|q pat']; [reflexivity|]. exfalso.
+  unfold partial_marker_free in H. cbn [forallb] in H. rewrite andb_true_r in H. apply andb_prop in H. destruct H as [Ha Hm].
+  assert (G : forallb (fun i => negb (ends_with (firstn i pat) X)) (seq 1 (length pat - 1)) = true)
+    by (destruct Hp as [-> | ->]; assumption).
+  rewrite forallb_forall in G. specialize (G (length S)).
+  assert (Hin : In (length S) (seq 1 (length pat - 1))).
+  { apply in_seq. rewrite Ep, app_length. cbn [length]. destruct S; [congruence|cbn; lia]. }
+  specialize (G Hin). rewrite Ep in G. rewrite firstn_app, Nat.sub_diag, firstn_all in G. cbn [firstn] in G. rewrite app_nil_r in G.
+  rewrite E, ends_with_app in G. discriminate.
+Qed.
